@@ -39,6 +39,8 @@ PROFILES = {
     "eq-all": st.one_of(K, K, TRUTHY_PRIMS, st.just(("EQ",))),
     "grumpy-hash": st.one_of(K, K, K, GR("hash", "eq")),
     "grumpy-add": st.one_of(K, K, K, GR("add")),
+    # items whose repr()/str()/format() raises: error messages must not be built from the caller's items
+    "unprintable": st.one_of(K, K, GR("repr")),
     "inexact": st.one_of(INEXACT_FLOATS, INEXACT_FLOATS, st.integers(-2, 5).map(lambda n: ["i", n])),
     "item": K,
     # a class with only __lt__ plus functools.total_ordering and identity equality (ties: a > b and b > a)
